@@ -8,15 +8,21 @@
    returns for the search key - true of the empty cache a request starts with and preserved by
    everything the closest-key walk does. *)
 From DnsV Require Import Base.Bytes Model.Store Model.LookupV1 Model.LookupV2.
-From DnsV Require Import Spec.Answer Spec.Rows Proofs.ZoneCut Proofs.Store Proofs.Ctx Proofs.CtxFind Proofs.Reverse.
+From DnsV Require Import Spec.Answer Spec.Rows Proofs.ZoneCut Proofs.Store Proofs.Ctx Proofs.CtxFind Proofs.Reverse Proofs.SortedStore.
 Open Scope N_scope.
 
 (* SeekForPrev as modelled: the key found is a key of the store, returned with its own rows,
    and is not greater than the probe *)
 Theorem C02_seek_prev_sound : forall s probe k v,
   seek_prev s probe = Some (k, v) -> In (k, v) s /\ bleb k probe = true.
-Proof. intros s probe k v H. split; [exact (seek_prev_in s probe k v H) | exact (seek_prev_le s probe k v H)]. Qed.
+Proof. exact seek_prev_sound. Qed.
 Print Assumptions C02_seek_prev_sound.
+
+(* the [uniq] hypothesis below holds of every store with strictly ascending keys - the decidable
+   predicate the dumps handed to the model satisfy *)
+Theorem C02_sorted_store_uniq : forall st, sorted_keys st = true -> uniq st.
+Proof. exact sorted_uniq. Qed.
+Print Assumptions C02_sorted_store_uniq.
 
 (* a key that is present is its own closest key *)
 Theorem C02_seek_prev_present : forall st k v, uniq st -> In (k, v) st -> seek_prev st k = Some (k, v).
